@@ -1016,3 +1016,40 @@ PROPERTIES["C18"] = {
             "violation); every goroutine's trace must equal the model's solo trace. Non-trivial: >= 4 goroutines.",
     "assumptions": ["the race detector only sees the interleavings that actually happened"],
 }
+
+
+# ------------------------------------------------------------------ textline / render (C04)
+def textline_oracle(case, obs, exp):
+    return "unknown", "the implementation's reading of this source line differs from the transcribed TextMode grammar"
+
+
+def textline_known_class(k, case, exp_line, obs_line):
+    return False
+
+
+def textline_features(case):
+    s = str(case[1])
+    labels = ["escape" if "\\" in s else "no-escape", "tags" if "#" in s else "no-tags", "comment" if "//" in s else "no-comment",
+              "multibyte" if any(ord(c) > 127 for c in s) else "ascii", "leading-blank" if s[:1] in (" ", "\t") else "no-leading-blank"]
+    return s, len(s) >= 4, labels
+
+
+FAMILIES["textline"] = {"oracle": textline_oracle, "features": textline_features,
+                        "shrink": lambda c: [[c[0], sexp.Sym(str(c[1])[:i] + str(c[1])[i + 1:])] for i in range(len(str(c[1])))][:80]}
+
+
+def render_view(o):
+    return obs_view(o, keep_tags=True, keep_attrs=False, keep_disabled=True)
+
+
+_mk("render", runner_projection(render_view), runner_features(0, 3, need=["line"]))
+PROPERTIES["C04"] = {
+    "families": [("textline", 4000, 150000), ("render", 150, 4000), ("fmt", 150, 20000)],
+    "rule": "textline: one source line (printable ASCII, punctuation, multi-byte and astral characters; every escapable "
+            "character escaped or not at every position, unescapable escapes, leading blanks, 0-2 hashtags with odd "
+            "spacing, trailing comments) in a node body; the implementation's parser must read it as the transcribed "
+            "grammar does (literal text + tags, or not a plain line). render: programs dominated by lines and option "
+            "groups with inline expressions of every type and conditions; text, tags and Disabled compared. fmt: display "
+            "form of doubles. Non-trivial: source line of >= 4 characters / a line statement present.",
+    "assumptions": [],
+}
